@@ -4,7 +4,6 @@ import (
 	"errors"
 	"net"
 	"strconv"
-	"strings"
 )
 
 const hexDigit = "0123456789abcdef"
@@ -331,12 +330,21 @@ func Fqdn(s string) string {
 // form is lowercase and fully qualified. Only US-ASCII letters are affected. See
 // Section 6.2 in RFC 4034.
 func CanonicalName(s string) string {
-	return strings.Map(func(r rune) rune {
-		if r >= 'A' && r <= 'Z' {
-			r += 'a' - 'A'
+	s = Fqdn(s)
+	// Lower-case octet by octet: a name may hold octets that are not valid UTF-8.
+	for i := 0; i < len(s); i++ {
+		if s[i] < 'A' || s[i] > 'Z' {
+			continue
 		}
-		return r
-	}, Fqdn(s))
+		b := []byte(s)
+		for j := i; j < len(b); j++ {
+			if b[j] >= 'A' && b[j] <= 'Z' {
+				b[j] += 'a' - 'A'
+			}
+		}
+		return string(b)
+	}
+	return s
 }
 
 // Copied from the official Go code.
